@@ -14,7 +14,7 @@ RULE = ("harness/src/bin/provers.rs drives the REAL PrivateBatchProver::commit (
         "quick / 1..4 thorough, over the 21-PI fake leaf circuit of the repo's own tests) and PublicBatchProver::commit (M = 2 quick / "
         "1..3 thorough, inner proofs = genuine private-batch proofs made by the real PrivateBatchProver) with vectors of lengths 0..N+1. "
         "Quick tier: a fixed scenario list (every feature below once at N = 2, k = 2; k = 1 < N plain / tampered / wrong PI length / "
-        "template supplied / non-native asset; k = 0; k = N+1; N = 1 and N = 3 samples) with seed-dependent values; thorough adds ~700 "
+        "template supplied / non-native asset; k = 0; k = N+1; N = 1 and N = 3 samples) with seed-dependent values; thorough adds ~370 "
         "random vectors. Features: compatible batches, one deliberate feature each (asset / fee / block differing, nullifier shared real-real and real-supplied-dummy, "
         "all supplied dummies, grouped sums 2^32-2 .. 2^33 on one account incl. the zero account, max amounts on distinct accounts, "
         "supplied dummy with huge outputs, accounts differing in one limb), plus tampered proofs (a public input flipped after proving), "
